@@ -193,6 +193,123 @@ def field_cases(system: str) -> list[tuple[str, str]]:
     return out
 
 
+# ---- rotated Cartesian frames: the Cartesian member of the pair need not be the parent ---------------
+
+ANG = sp.atan(sp.Rational(3, 4))  # cos = 4/5, sin = 3/5: exact arithmetic
+
+
+def _rot(axis: str, v: tuple) -> tuple:
+    """components, in the frame rotated by ANG about `axis`, of the vector with parent components v"""
+    c, s_ = sp.Rational(4, 5), sp.Rational(3, 5)
+    x, y, z = v
+    if axis == "k":
+        return (c * x + s_ * y, -s_ * x + c * y, z)
+    if axis == "i":
+        return (x, c * y + s_ * z, -s_ * y + c * z)
+    return (c * x - s_ * z, y, s_ * x + c * z)  # about j
+
+
+def _unrot(axis: str, v: tuple) -> tuple:
+    c, s_ = sp.Rational(4, 5), sp.Rational(3, 5)
+    x, y, z = v
+    if axis == "k":
+        return (c * x - s_ * y, s_ * x + c * y, z)
+    if axis == "i":
+        return (x, c * y - s_ * z, s_ * y + c * z)
+    return (c * x + s_ * z, y, -s_ * x + c * z)
+
+
+def frame_cases(system: str) -> list[tuple[str, str]]:
+    """cart (parent), rot = cart rotated about an axis, curv = curvilinear child of cart,
+    curv2 = curvilinear child of rot.  Re-expression between any Cartesian and any curvilinear
+    member preserves the geometric vector / the field value at the physical point."""
+    from symplyphysics import Vector, CoordinateSystem, coordinates_transform, dot_vectors
+    from symplyphysics.core.coordinate_systems.coordinate_systems import coordinates_rotate
+    from symplyphysics.core.fields.scalar_field import ScalarField
+    from symplyphysics.core.points.cartesian_point import CartesianPoint
+    from symplyphysics.core.points.cylinder_point import CylinderPoint
+    from symplyphysics.core.points.sphere_point import SpherePoint
+    S = CoordinateSystem.System
+    kind = S.CYLINDRICAL if system == "cylindrical" else S.SPHERICAL
+    PT = CylinderPoint if system == "cylindrical" else SpherePoint
+    pts = (CYL_POINTS if system == "cylindrical" else SPH_POINTS)[::4]
+    out: list[tuple[str, str]] = []
+    xs, ys, zs = sp.symbols("x y z")
+    for axis in ("k", "i", "j"):
+        cart = CoordinateSystem(S.CARTESIAN)
+        ax = getattr(cart.coord_system, axis)
+        rot = coordinates_rotate(cart, ANG, ax)
+        curv = coordinates_transform(cart, kind)
+        curv2 = coordinates_transform(rot, kind)
+        # (source system, target system, map source components -> target components)
+        for q in pts:
+            pc = R.position(system, q)  # parent components of the point q given in curv
+            pr = _unrot(axis, pc)  # ... of the point q given in curv2 (q in rot's frame)
+            legs = [("curv->rot", curv, q, rot, _rot(axis, pc)),
+                ("curv2->cart", curv2, q, cart, pr),
+                ("curv2->rot", curv2, q, rot, pc),
+                ("rot->curv", rot, _rot(axis, pc), curv, q),
+                ("cart->curv2", cart, pr, curv2, q),
+                ("rot->curv2", rot, pc, curv2, q)]
+            for name, src, comps, dst, want in legs:
+                tag = f"frame:{system}:{axis}:{name}:{q}"
+                try:
+                    got = Vector(list(comps), src).rebase(dst)
+                except Exception as ex:  # pylint: disable=broad-except
+                    out.append((tag, f"re-expression raised {type(ex).__name__}: {short(ex)}"))
+                    continue
+                ok = vnear(got.components, want)
+                out.append((tag, "" if ok else
+                    f"{short([sp.N(c, 8) for c in comps])} re-expressed as "
+                    f"{short([sp.N(c, 8) for c in R.pad(got.components)])}, reference "
+                    f"{short([sp.N(c, 8) for c in want])}"))
+                if ok:
+                    back = got.rebase(src)
+                    out.append((tag + ":back", "" if vnear(back.components, comps) else
+                        f"round trip gives {short([sp.N(c, 8) for c in R.pad(back.components)])} "
+                        f"for {short([sp.N(c, 8) for c in comps])}"))
+        # scalar fields: written in one member, read at the same physical point in another
+        for ftxt in FIELDS[1:8]:
+            fx = sp.sympify(ftxt)
+            for name, src, dst in (("rot->curv", rot, curv), ("cart->curv2", cart, curv2),
+                ("curv->rot", curv, rot), ("curv2->cart", curv2, cart)):
+                b = src.coord_system.base_scalars()
+                if src.coord_system_type == S.CARTESIAN:
+                    expr = fx.subs({xs: b[0], ys: b[1], zs: b[2]}, simultaneous=True)
+                else:
+                    cp = R.position(system, tuple(b))
+                    expr = fx.subs({xs: cp[0], ys: cp[1], zs: cp[2]}, simultaneous=True)
+                tag = f"frame-field:{system}:{axis}:{name}:{ftxt}"
+                try:
+                    g = ScalarField.from_expression(expr, src).rebase(dst)
+                except Exception as ex:  # pylint: disable=broad-except
+                    out.append((tag, f"re-expression raised {type(ex).__name__}: {short(ex)}"))
+                    continue
+                for q in pts[::2]:
+                    # q: curvilinear coordinates of the point in the curvilinear member's frame;
+                    # Cartesian components in the frame of each member
+                    loc = R.position(system, q)
+                    if name == "rot->curv":  # curv lives in cart's frame; source frame is rot
+                        src_xyz, at_dst = _rot(axis, loc), PT(*q)
+                    elif name == "cart->curv2":  # curv2 lives in rot's frame; source frame cart
+                        src_xyz, at_dst = _unrot(axis, loc), PT(*q)
+                    elif name == "curv->rot":  # field given over curv (cart's frame), read in rot
+                        src_xyz, at_dst = loc, CartesianPoint(*_rot(axis, loc))
+                    else:  # curv2 (rot's frame) read in cart
+                        src_xyz, at_dst = loc, CartesianPoint(*_unrot(axis, loc))
+                    want = fx.subs({xs: src_xyz[0], ys: src_xyz[1], zs: src_xyz[2]},
+                        simultaneous=True)
+                    try:
+                        a = g(at_dst)
+                    except Exception as ex:  # pylint: disable=broad-except
+                        out.append((f"{tag}:{q}", f"applying raised {type(ex).__name__}: {short(ex)}"))
+                        continue
+                    out.append((f"{tag}:{q}", "" if near(a, want) else
+                        f"field {ftxt} re-expressed takes {short(sp.N(a, 12))} at the physical point, "
+                        f"reference {short(sp.N(want, 12))}"))
+    return out
+
+
 def point_style_cases() -> list[tuple[str, str]]:
     """the same physical points given by constructor arguments, by the named setters and by
     set_coordinate, with several points alive at the same time: a field and its re-expressed
@@ -300,7 +417,7 @@ def refusal_cases() -> list[tuple[str, str]]:
 def _work(item: tuple) -> dict:
     kind, payload = item
     cases = (vector_cases(payload) if kind == "vector" else field_cases(payload) if kind == "field"
-        else point_style_cases() if kind == "pointstyle" else refusal_cases())
+        else frame_cases(payload) if kind == "frame" else point_style_cases() if kind == "pointstyle" else refusal_cases())
     res: dict[str, Any] = {"n": len(cases), "keys": [k for k, _ in cases], "outcomes": {},
         "violations": [], "samples": [cases[len(cases) // 2][0]] if cases else []}
     for k, v in cases:
@@ -313,7 +430,8 @@ def _work(item: tuple) -> dict:
 
 def main(run: Run) -> int:
     items = [("vector", "cylindrical"), ("vector", "spherical"), ("field", "cylindrical"),
-        ("field", "spherical"), ("refusal", None), ("pointstyle", None)]
+        ("field", "spherical"), ("refusal", None), ("pointstyle", None), ("frame", "cylindrical"),
+        ("frame", "spherical")]
     for r in pmap(_work, rotate(items, run.seed)):
         n = r.pop("n")
         run.evaluations += n
@@ -322,7 +440,8 @@ def main(run: Run) -> int:
     return run.finish(
         rule="both directions of Cartesian<->cylindrical and Cartesian<->spherical x lattice points "
         "of each domain x 1..3 components; dot / magnitude / scale against Cartesian values; 11 "
-        "scalar fields x points in both directions; refusal matrix (direct cylindrical<->spherical, "
+        "scalar fields x points in both directions; the same between a Cartesian frame rotated about "
+        "each axis (and curvilinear systems derived from it) and the parent's systems; refusal matrix (direct cylindrical<->spherical, "
         "3 systems x 3 point kinds x 2 field kinds)",
         exhaustive=True,
         assumptions=["points away from the coordinate singularities", "values compared at 40 digits, "
